@@ -25,9 +25,11 @@ WIRES = {
             ("C08-YIELD-REQUESTS", 'coro.push_yield_rule(run, f, "C08-YIELD-REQUESTS")'),
             ("C08-YIELD-DRAIN", 'coro.drain_rule(run, f, "C08-YIELD-DRAIN")'),
             ("C08-REQUEST-PAIRING", 'wave2.request_pairing_rule(run, f, "C08-REQUEST-PAIRING")'),
-            ("C08-NO-EXIT-BEFORE-YIELD", 'wave3.no_exit_before_yield_rule(run, f, "C08-NO-EXIT-BEFORE-YIELD")')],
+            ("C08-NO-EXIT-BEFORE-YIELD", 'wave3.no_exit_before_yield_rule(run, f, "C08-NO-EXIT-BEFORE-YIELD")'),
+            ("C08-SUSPENDER-POPPED", 'wave3.suspender_popped_rule(run, f, "C08-SUSPENDER-POPPED")')],
     "C09": [("C09-REQUEST-PAIRING", 'wave2.request_pairing_rule(run, f, "C09-REQUEST-PAIRING")'),
-            ("C09-NO-EXIT-BEFORE-YIELD", 'wave3.no_exit_before_yield_rule(run, f, "C09-NO-EXIT-BEFORE-YIELD")')],
+            ("C09-NO-EXIT-BEFORE-YIELD", 'wave3.no_exit_before_yield_rule(run, f, "C09-NO-EXIT-BEFORE-YIELD")'),
+            ("C09-SUSPENDER-POPPED", 'wave3.suspender_popped_rule(run, f, "C09-SUSPENDER-POPPED")')],
     "C10": [("C10-PROMOTION-EXITS", 'wave3.promotion_exits_rule(run, f, "C10-PROMOTION-EXITS")')],
     "C11": [("C11-BROADCAST-EVERY-CHANGE", 'wave3.change_broadcast_rule(run, f, "C11-BROADCAST-EVERY-CHANGE")'),
             ("C11-WORKER-EXIT", 'wave2.worker_exit_rule(run, f, "C11-WORKER-EXIT")')],
@@ -53,7 +55,8 @@ WIRES = {
     "C20": [("C20-POLL-EVERY-ROUND", 'wave2.poll_every_round_rule(run, f, "C20-POLL-EVERY-ROUND")'),
             ("C20-FRESH-EVENTS", 'wave3.fresh_events_rule(run, f, "C20-FRESH-EVENTS")')],
     "C24": [("C24-FAULT-SIGNALS-UNBLOCKED", 'wave2.fault_signals_unblocked_rule(run, f, "C24-FAULT-SIGNALS-UNBLOCKED")'),
-            ("C24-ALWAYS-REDIRECTS", 'wave3.always_redirects_rule(run, f, "C24-ALWAYS-REDIRECTS")')],
+            ("C24-ALWAYS-REDIRECTS", 'wave3.always_redirects_rule(run, f, "C24-ALWAYS-REDIRECTS")'),
+            ("C24-SUSPENDER-POPPED", 'wave3.suspender_popped_rule(run, f, "C24-SUSPENDER-POPPED")')],
     "C25": [("C25-DELETERS", 'wave2.local_deleters_rule(run, f, "C25-DELETERS")'),
             ("C25-CURRENT-ENDS", 'wave2.current_ends_rule(run, f, "C25-CURRENT-ENDS")'),
             ("C25-GET-CONSULTS-MAP", 'wave3.local_get_consults_map_rule(run, f, "C25-GET-CONSULTS-MAP")')],
